@@ -665,6 +665,15 @@ class VectorParamNetorkAddress(VectorParamString):
         return len(str(item))
 
 
+def _ip_network_as_written(address):
+    # only networks that are written back exactly as they were given (10.1.2.3 would come back as 10.1.2.3/32)
+    network = ipaddress.ip_network(address)
+    if str(network) != str(address):
+        raise ValueError(address)
+
+    return network
+
+
 class NetworkVector(VectorString):
     @classmethod
     def get_param(cls):
@@ -672,7 +681,7 @@ class NetworkVector(VectorString):
             min_byte_num=0,
             max_byte_num=2 ** 32 - 1,
             separator=',',
-            item_class=ipaddress.ip_network,
+            item_class=_ip_network_as_written,
             fallback_class=None,
         )
 
